@@ -61,7 +61,7 @@ COMPOSED = [
     {"k": "newton_girard", "max_degree": 3},
 ]
 GRADK = ["rbfgrad", "m52grad", "polygrad", "rbfgradgrad"]
-NPAT = [(5, 4, "diff"), (4, 4, "same"), (4, 4, "eqsize"), (1, 3, "diff"), (1, 1, "same"), (6, 2, "diff")]
+NPAT = [(5, 4, "diff"), (4, 4, "same"), (4, 4, "eqsize"), (1, 3, "diff"), (1, 1, "same"), (6, 2, "diff"), (4, 4, "near")]
 BATCH = [([], []), ([2], []), ([2], [2]), ([], [2]), ([3, 2], []), ([3, 2], [3, 2]), ([1, 2], [3, 1])]
 PATHS = ["nograd", "xgrad", "trace"]
 REGIMES = ["random", "small", "large"]
@@ -288,6 +288,9 @@ def _run_case(case, ctx):
         x1, x2 = x1 + off, x2 + off
     if case["rel"] == "same":
         x2 = x1
+    if case["rel"] == "near" and x1.dtype.is_floating_point and spec["k"] != "hamming":
+        # a second input set that is ALMOST the first one (another tensor, differences of 1e-9 .. 1e-4): still its own points
+        x2 = x1 + 10.0 ** (-9 + 5 * util.rand(g, *x1.shape[:-1], 1)) * util.randn(g, *x1.shape)
     path = case["path"]
     if spec["k"] in ("hamming", "newton_girard", "index") and path == "xgrad":
         path = "nograd"
